@@ -17,6 +17,9 @@ from . import vg, facts as F, helpers as H, idioms
 from .terms import mk, tag, all_nodes
 
 INF = math.inf
+SIGNED_ABS = re.compile(r"^core::num::<impl (i8|i16|i32|i64|i128|isize)>::abs$")
+SIGNED_UABS = re.compile(r"^core::num::<impl (i8|i16|i32|i64|i128|isize)>::unsigned_abs$")
+SIGNED_ISNEG = re.compile(r"^core::num::<impl (i8|i16|i32|i64|i128|isize)>::is_negative$")
 MAXF = 1.7976931348623157e308
 
 def f64v(t):
@@ -74,7 +77,7 @@ class Facts(object):
         self.env[t] = iv if cur is None else cur.meet(iv)
         self.memo = {}
         # |x| <= c  =>  -c <= x <= c
-        if tag(t) == "call" and t[1] in ("libm::fabs", "core::f64::<impl f64>::abs", "core::num::<impl i32>::abs") and len(t) == 3 and iv.hi < INF:
+        if tag(t) == "call" and (t[1] in ("libm::fabs", "core::f64::<impl f64>::abs") or SIGNED_ABS.match(t[1])) and len(t) == 3 and iv.hi < INF:
             self.restrict(t[2], Iv(-iv.hi, iv.hi, iv.nan))
 
     def add(self, c, val):
@@ -85,7 +88,7 @@ class Facts(object):
             n = c[1]
             if n == "core::f64::<impl f64>::is_nan" and val is False:
                 self.restrict(c[2], Iv(-INF, INF, False))
-            elif n == "core::num::<impl i32>::is_negative":
+            elif SIGNED_ISNEG.match(n):
                 self.restrict(c[2], Iv(-INF, -1) if val else Iv(0, INF))
             elif n == "TwoFloat::is_valid" and val and len(c) == 3:
                 # a valid value has finite words (is_valid = both finite and no_overlap: C07 / R17)
@@ -194,7 +197,7 @@ class Facts(object):
                 vals = [vg.to_signed(ety, int.from_bytes(raw[i * sz:(i + 1) * sz], "little")) for i in range(n)]
                 if vals:
                     return Iv(min(vals), max(vals))
-        if tg == "call" and t[1] == "core::num::<impl i32>::unsigned_abs" and len(t) == 3:
+        if tg == "call" and SIGNED_UABS.match(t[1]) and len(t) == 3:
             inner = self.bounds(t[2])
             lo = 0 if inner.lo <= 0 <= inner.hi else min(abs(inner.lo), abs(inner.hi))
             ex = self.notin.get(t[2])
@@ -274,11 +277,11 @@ class Facts(object):
                 a = self.bounds(t[2])
                 lo = 0.0 if a.lo <= 0 <= a.hi else min(abs(a.lo), abs(a.hi))
                 return Iv(lo, max(abs(a.lo), abs(a.hi)), a.nan)
-            if n == "core::num::<impl i32>::abs" and len(t) == 3:
+            if SIGNED_ABS.match(n) and len(t) == 3:
                 a = self.bounds(t[2])
                 lo = 0 if a.lo <= 0 <= a.hi else min(abs(a.lo), abs(a.hi))
                 return Iv(lo, max(abs(a.lo), abs(a.hi)))
-            if n == "core::num::<impl i32>::unsigned_abs" and len(t) == 3:
+            if SIGNED_UABS.match(n) and len(t) == 3:
                 a = self.bounds(t[2])
                 lo = 0 if a.lo <= 0 <= a.hi else min(abs(a.lo), abs(a.hi))
                 return Iv(lo, max(abs(a.lo), abs(a.hi)))
@@ -374,7 +377,7 @@ class Facts(object):
             r = self.decide(c[1])
             return None if r is None else (not r)
         if tg == "call":
-            if c[1] == "core::num::<impl i32>::is_negative":
+            if SIGNED_ISNEG.match(c[1]):
                 a = self.bounds(c[2])
                 if a.hi < 0: return True
                 if a.lo >= 0: return False
@@ -591,10 +594,16 @@ class Hooks(object):
             n = idioms.array_len(args[0]) if tag(args[0]) == "carray" else None
             if sl is not None and n is not None and 0 <= sl[1] <= sl[2] <= n:
                 self.sites.append(Site(func, "call", base, None, None, t["sp"], "D-const", "constant range %d..%d within a table of %d" % (sl[1], sl[2], n))); return
-        if base == "core::num::<impl i32>::abs" and args:
+        mpw = re.match(r"^core::num::<impl (u\w+)>::pow$", base)
+        if mpw and mpw.group(1) in vg.INT_BITS and len(args) == 2 and tag(args[0]) == "const" and args[0][2] == 2:
+            iv = self._facts(st).bounds(args[1])
+            if 0 <= iv.lo and iv.hi < vg.INT_BITS[mpw.group(1)]:
+                self.sites.append(Site(func, "call", base, None, None, t["sp"], "D-guard", "2^k with k in %r below the width of the type" % iv)); return
+        mabs = SIGNED_ABS.match(base)
+        if mabs and args:
             iv = self._facts(st).bounds(args[0])
-            if iv.lo > -(1 << 31):
-                self.sites.append(Site(func, "call", base, None, None, t["sp"], "D-guard", "argument in %r excludes i32::MIN" % iv)); return
+            if iv.lo > -(1 << (vg.INT_BITS[mabs.group(1)] - 1)):
+                self.sites.append(Site(func, "call", base, None, None, t["sp"], "D-guard", "argument in %r excludes the type's MIN" % iv)); return
         self.sites.append(Site(func, "call", base, None, self.path_of(st), t["sp"], "open", "foreign callee may panic (%s)" % ", ".join(sorted(reasons))[:120]))
 
     def foreign_may_panic(self, fk, depth=0):
